@@ -2,8 +2,9 @@
 
 Every method of foolscap.reconnector.Reconnector that takes part in the retry state machine is
 translated statement by statement into an action  st -> st * list out  over the primitives of
-coq/lib/ReconnectorBase.v; the class constants become exact rationals (the decimal text of the
-float literal, not its double approximation).  Statements which only log, remember the last failure
+coq/lib/ReconnectorBase.v; the class constants and number literals become exact rationals: the exact
+value of the int / IEEE double the literal denotes (taken from the parsed constant, never from source
+text, so a literal reached through a propagated named constant is read the same way).  Statements which only log, remember the last failure
 or fill the informational ReconnectionInfo are recognised *exactly* (white list on the unparsed
 text) and dropped; anything else raises Untranslatable (fail closed).
 
@@ -11,6 +12,25 @@ The wiring facts the hand-written event dispatcher of lib/Reconnector.v relies o
 getReference's Deferred gets (_connected, _failed); notifyOnDisconnect gets _disconnected;
 callLater gets _timer_expired; Tub.connectTo/startService/stopService call startConnecting and
 stopConnecting the way the `permitted` predicate assumes.
+
+Accepted forms beyond the reference text (each with its equivalence argument):
+
+  * number literals by value.  `self._timer.reset(1.0)` and `self._timer.reset(RESET_DELAY)` with the module
+    constant `RESET_DELAY = 1.0` propagated by the front-end give the same ast.Constant(1.0); the translator
+    reads `node.value` (exact Fraction of the double), which is the object Python passes at run time in both
+    forms.  No assumption about types: only int/float constants that are not bool are accepted.
+
+  * effect-free helper methods.  A method of Reconnector that the model does not know is accepted iff its
+    body consists ONLY of statements from the white list of statements the translation drops anyway (logging,
+    `log_it = ...`, `ci = ...`, `if <pure test>: <such statements>`) plus `return <local name | literal |
+    pure test>`; it takes only `self` and plain positional parameters.  Such a method cannot touch any field
+    of the modelled state (_active, _stopped, _tub, _delay, _timer, the Deferreds, the watchers, the
+    ReconnectionInfo state) nor call anything that does, so a call `self.<helper>(<names>)` is a pure test in
+    the sense of PURE_TESTS: `if self._should_log_failure(f): log.msg(...)` is dropped exactly as
+    `if log_it: log.msg(...)` was.  The arguments must be plain names (evaluating them calls nothing).  This
+    does not depend on the value the helper returns: the guarded block is itself effect-free, so neither
+    branch changes the modelled state.  (What is NOT accepted: a helper containing any translatable or unknown
+    statement -- those are inlined by the front-end or fail closed.)
 """
 import ast
 from fractions import Fraction
@@ -67,10 +87,9 @@ class M:
 
     def number(self, node):
         if isinstance(node, ast.Constant) and isinstance(node.value, (int, float)) and not isinstance(node.value, bool):
-            txt = ast.get_source_segment(self.src, node)
             try:
-                return Fraction(txt)
-            except (ValueError, TypeError):
+                return Fraction(node.value)       # exact: ints as such, doubles as the dyadic rational they are
+            except (ValueError, TypeError, OverflowError):
                 self.bail(node, "number literal")
         self.bail(node, "not a number literal")
 
@@ -130,9 +149,41 @@ class M:
                     if isinstance(x, ast.Call):
                         self.bail(st, "call inside a log message")
             return True
-        if isinstance(st, ast.If) and ast.unparse(st.test) in PURE_TESTS:
+        if isinstance(st, ast.If) and self.pure_test(st.test):
             return all(self.ignorable(x) for x in st.body + st.orelse)
         return False
+
+    pure_helpers = ()       # names of effect-free helper methods (see the module docstring), set by generate()
+
+    def pure_test(self, t):
+        if isinstance(t, ast.UnaryOp) and isinstance(t.op, ast.Not):
+            return self.pure_test(t.operand)
+        if ast.unparse(t) in PURE_TESTS:
+            return True
+        if isinstance(t, ast.Call) and not t.keywords and isinstance(t.func, ast.Attribute) \
+                and isinstance(t.func.value, ast.Name) and t.func.value.id == "self" \
+                and t.func.attr in self.pure_helpers and all(isinstance(a, ast.Name) for a in t.args):
+            return True
+        return False
+
+    def effect_free_body(self):
+        """is this method one of the effect-free helpers of the module docstring?"""
+        f = self.f
+        if f.decorator_list or f.args.vararg or f.args.kwarg or f.args.kwonlyargs or f.args.defaults \
+                or not f.args.args or f.args.args[0].arg != "self":
+            return False
+
+        def ok(st):
+            if isinstance(st, ast.Return):
+                v = st.value
+                return v is None or isinstance(v, (ast.Name, ast.Constant)) or self.pure_test(v)
+            if isinstance(st, ast.If) and self.pure_test(st.test):
+                return all(ok(x) for x in st.body + st.orelse)
+            try:
+                return self.ignorable(st)
+            except P.Untranslatable:
+                return False
+        return all(ok(st) for st in f.body)
 
     def prim(self, st):
         txt = ast.unparse(st)
@@ -221,7 +272,7 @@ def generate():
                 raise P.Untranslatable("Reconnector.%s is not a number literal" % st.targets[0].id)
             if st.targets[0].id in consts:
                 raise P.Untranslatable("Reconnector.%s assigned twice" % st.targets[0].id)
-            consts[st.targets[0].id] = Fraction(ast.get_source_segment(src, v))
+            consts[st.targets[0].id] = Fraction(v.value)
     missing = [k for k in CONSTS if k not in consts]
     if missing:
         raise P.Untranslatable("class constants not found: %s" % missing)
@@ -240,8 +291,16 @@ def generate():
         raise P.Untranslatable("a Reconnector method is defined twice")
     readonly = {"getDelayUntilNextAttempt", "getLastFailure", "getReconnectionInfo"}
     extra = set(defs) - set(METHODS) - readonly
-    if extra:
-        raise P.Untranslatable("Reconnector has methods the model does not know: %s" % sorted(extra))
+    notfree = sorted(nm for nm in extra if not M(src, defs[nm], {}, []).effect_free_body())
+    if notfree:
+        raise P.Untranslatable("Reconnector has methods the model does not know: %s" % notfree)
+    M.pure_helpers = tuple(sorted(extra))
+    # an effect-free helper may be used only as a pure test; any other mention (e.g. registered as a callback) is refused
+    for nm in extra:
+        uses = [x for x in ast.walk(cls) if isinstance(x, ast.Attribute) and x.attr == nm]
+        calls = [x for x in ast.walk(cls) if isinstance(x, ast.Call) and isinstance(x.func, ast.Attribute) and x.func.attr == nm]
+        if len(uses) != len(calls):
+            raise P.Untranslatable("helper %s is used other than by calling it" % nm)
     for nm in readonly & set(defs):
         for x in ast.walk(defs[nm]):
             if isinstance(x, (ast.Assign, ast.AugAssign)) or \
